@@ -134,7 +134,10 @@ CHECKS["C05"] = dict(
          "Cc.setnx_one_winner state the property's examples for every n. The discipline hypothesis is tied to the code by hook H2: on every command of "
          "the generated exec programs the recorded lock/access event trace must be accepted by TraceCheck.ok (TraceCheck.access_held: every access "
          "inside its stripe in a sufficient mode). Concurrent histories (2-16 goroutines, colliding stripes) are additionally checked with porcupine, "
-         "a lockset monitor, quiescent invariants and the Go race detector. "
+         "a lockset monitor, quiescent invariants and the Go race detector; invariant-judged scenarios for what a history search cannot reach: bigread (containers of thousands of members "
+         "listed while they grow), addrem, keysstable, streamtrim, bpoptime, storeacc (STORE forms accumulating into their own source), counters (numbers crossing digit boundaries read in bulk), "
+         "bigmulti (duels of MSETs over 1500 keys / SADD of 2000 members against DEL), firsttouch (the first commands of 400 fresh servers, simultaneous, one key). A conc engine process that dies "
+         "(Go fatal error, panic outside recover, time limit) is a violation. "
          "For the REAL command table (Exec.exec, 77 commands): Exec.footprint args = the keys whose stripes the executor locks and the mode (a function "
          "of the argument vector; Exec.lockPlan additionally knows the refusals issued before the first lock); Props/C05Foot*.lean prove exec_frame "
          "(a key outside the footprint is untouched), exec_local (reply and new entries under the footprint keys depend only on the entries under them) "
